@@ -45,7 +45,7 @@ def reactive_only(d):
     return True
 
 
-IFEXP = re.compile(r'^\((.+) if <(.+)> else (.+)\)$')
+IFEXP = re.compile(r'^\((.+) if [<(](.+)[>)] else (.+)\)$')
 
 
 def vle_admissible(total, idx, p):
